@@ -137,6 +137,24 @@ class Prop(common.PropertyCheck):
                 span = np.exp(np.linspace(np.log(rfi.min()), np.log(rfi.max()), 60))
                 true = np.exp(case['b']) * span ** case['m']
                 out['maxdev'] = float(np.max(np.abs(np.asarray(sc(span)) / true - 1)))
+            # the curve is a function of the fluorescence value, whatever numeric type carries it
+            try:
+                iv = np.unique(np.clip(np.round(grid[:12]), 1, 2 ** 40).astype(np.int64))
+                fi = np.asarray(sc(iv), dtype=float); ff = np.asarray(sc(iv.astype(np.float64)), dtype=float)
+                one = float(sc(int(iv[0]))); onef = float(sc(float(iv[0])))
+                out['int_input_ok'] = bool(np.array_equal(fi, ff, equal_nan=True) and (one == onef or (math.isnan(one) and math.isnan(onef))))
+                if not out['int_input_ok']:
+                    out['int_input_detail'] = 'sc(%s as integers) = %s, as floats %s' % (iv[:3].tolist(), fi[:3].tolist(), ff[:3].tolist())
+            except Exception as e:
+                out['int_input_ok'] = 'raised %s' % type(e).__name__
+            # what the caller does with the returned parameter array afterwards does not reach later fits of the same beads
+            try:
+                keep = [float(v) for v in params]
+                params[:] = [9.0, 9.0, 9.0]
+                sc2, bm2, params2, _s, _n = FlowCal.mef.fit_beads_autofluorescence(np.array(rfi_saved), np.array(mef_saved))
+                out['refit_same'] = bool([bits(float(v)) for v in params2] == [bits(v) for v in keep])
+            except Exception as e:
+                out['refit_same'] = 'raised %s' % type(e).__name__
             return out
         except Exception as e:
             import traceback
@@ -152,6 +170,10 @@ class Prop(common.PropertyCheck):
             return None if impl['raised'] == 'ValueError' else '%s not refused with ValueError: %s' % (case['what'], impl['raised'])
         if impl.get('inputs_unchanged') is False:
             return "the fit rewrote the caller's fl_rfi / fl_mef arrays (a later fit with the same arrays, or a slice of them, gets other data)"
+        if impl.get('int_input_ok') is not True and 'int_input_ok' in impl:
+            return 'the standard curve gives other values for integer-typed fluorescence than for the same values as floats (%s)' % (impl.get('int_input_detail') or impl['int_input_ok'])
+        if impl.get('refit_same') is not True and 'refit_same' in impl:
+            return 'fitting the same beads again after the caller changed the parameter array returned by the first fit gives other parameters (%s)' % impl['refit_same']
         if impl.get('stable') is not True and 'stable' in impl:
             return 'after a later, unrelated fit the functions and parameters returned by this fit no longer give the same values (%s)' % impl['stable']
         p = [unbits(b) for b in impl['p']]
